@@ -43,6 +43,8 @@ class Contract:
         self.loop_modifies: dict[int, list] = {}
         self.decreases: dict[int, ast.expr] = {}
         self.logs: list[tuple[str, list]] = []  # events the call appends to the external-call log (assumed contracts)
+        self.logs_only: list[str] | None = None  # with "events" in modifies: the only entry names the call may add to the log
+        self.logs_result: list[str] = []  # ghost entries (name, result) appended at call sites after a normal return
         self.observes: dict[str, str] = {}  # spec variable -> external method whose (first) result it denotes
         self.captures: dict[str, ast.expr] = {}
         self.types: dict[str, ast.expr] = {}
@@ -93,6 +95,10 @@ class Contract:
                 self.decreases[call.args[0].value] = call.args[1]
             elif name == "logs":
                 self.logs.append((call.args[0].value, list(call.args[1:])))
+            elif name == "logs_only":
+                self.logs_only = (self.logs_only or []) + [a.value for a in call.args]
+            elif name == "logs_result":
+                self.logs_result.append(call.args[0].value)
             elif name == "observes":
                 for k in call.keywords:
                     self.observes[k.arg] = k.value.value
@@ -114,7 +120,7 @@ class Contract:
         return len(self.requires) + len(self.ensures) + len(self.raises) + len(self.may_raise) + len(self.ensures_raise)
 
 
-CLAUSE_NAMES = {"logs", "observes", "requires", "ensures", "raises", "may_raise", "ensures_raise", "modifies", "invariant", "loop_modifies",
+CLAUSE_NAMES = {"logs", "logs_only", "logs_result", "observes", "requires", "ensures", "raises", "may_raise", "ensures_raise", "modifies", "invariant", "loop_modifies",
                 "decreases", "captures", "types", "assumes", "option"}
 
 
